@@ -27,7 +27,7 @@ EXPLANATION = (
     "parameterised types, anything depending on what pandas/numpy/pyarrow objects print."
 )
 LEVEL_RULE = "one obligation per registry row / key / family member / duplicate pair found in the current tree"
-FLOORS = {"R1": 150, "R2": 60, "R3": 5, "R4": 100, "R5": 6, "R6": 20, "R7": 20, "R8": 3, "R9": 8, "R10": 1}
+FLOORS = {"R1": 150, "R2": 60, "R3": 5, "R4": 100, "R5": 6, "R6": 20, "R7": 20, "R8": 3, "R9": 8, "R10": 1, "R11": 1}
 
 ENGINE_FILES = [
     "pandera/engines/numpy_engine.py", "pandera/engines/pandas_engine.py", "pandera/engines/pyarrow_engine.py",
@@ -553,10 +553,12 @@ def r9_kind_conjunct(ctx):
             if f.name != "check" or f.cls is None or len(f.positional) < 2:
                 continue
             other = f.positional[1]
+            from ..util import Expander
+            ex9 = Expander(f.node)
             for s in walk_no_nested(f.node):
                 if not isinstance(s, ast.Return) or s.value is None or isinstance(s.value, ast.Constant):
                     continue
-                v = s.value
+                v = ex9.expand(s.value)  # read through locals (`other_type = pandera_dtype.type`)
                 t = txt(v)
                 if other not in t and "super()" not in t:
                     continue
@@ -605,6 +607,45 @@ def r10_no_name_reparse(ctx):
     ctx.stats["name_reparse_sites"] = n
 
 
+def r11_own_hook_only(ctx):
+    """`register_dtype` installs a class's `from_parametrized_dtype` as the resolver of the native types named in the
+    hook's annotations.  Only a hook defined by the class itself may be installed: a subclass that merely inherits it
+    (a user's `class MyDateTime(DateTime)`) would otherwise take over the resolution of `pd.DatetimeTZDtype(...)` /
+    'datetime64[ns, UTC]' for everybody, so equal spellings stop resolving to equal objects after a registration.
+    The decision must therefore be a membership test on the class's own namespace (`in cls.__dict__` / vars(cls))."""
+    from ..cfg import cfg_of
+    from ..util import enclosing_stmt
+    m = ctx.ix.module("pandera/engines/engine.py")
+    n = 0
+    for f in m.all_functions:
+        for c in calls_in(f.node):
+            if callee_last(c) != "_register_from_parametrized_dtype":
+                continue
+            n += 1
+            cfg = cfg_of(f.node)
+            node = cfg.node_of(enclosing_stmt(c))
+            tests = [t for t, pol in (cfg.guards(node.id) if node is not None else []) if "from_parametrized_dtype" in txt(t)]
+            own = [t for t in tests for x in ast.walk(t) if isinstance(x, ast.Compare) and len(x.ops) == 1 and isinstance(x.ops[0], ast.In)
+                   and isinstance(x.left, ast.Constant) and x.left.value == "from_parametrized_dtype"
+                   and ("__dict__" in txt(x.comparators[0]) or txt(x.comparators[0]).startswith("vars("))]
+            other = [t for t in tests if t not in own]
+            ok = bool(own) and not other
+            ctx.ob("R11", f, "only a from_parametrized_dtype hook defined by the class itself is installed", ok,
+                   f"guarded by `{txt(own[0])}`" if ok else
+                   f"installed under {[txt(t) for t in tests] or 'no test of the own namespace'}: an inherited hook is registered again for the subclass, which "
+                   "then resolves the parent's native types (E.dtype(x) of equal spellings differs after a user registration)", f.loc(c))
+        for x in walk_no_nested(f.node):
+            # the hook itself is fetched from the own namespace as well (getattr would follow the MRO)
+            if f.name == "_register_from_parametrized_dtype" and isinstance(x, ast.Assign) and len(x.targets) == 1 and txt(x.targets[0]) == "method":
+                n += 1
+                ok = isinstance(x.value, ast.Subscript) and ("__dict__" in txt(x.value.value) or txt(x.value.value).startswith("vars("))
+                ctx.ob("R11", f, "the hook is read from the class's own namespace", ok,
+                       f"`{txt(x.value)[:60]}`" if ok else f"`{txt(x.value)[:60]}` follows the class hierarchy", f.loc(x))
+    ctx.stats["hook_registration_sites"] = n
+    if n < 1:
+        raise AnalysisError("engine.py: no _register_from_parametrized_dtype call found")
+
+
 def _norm_stmt(m, s):
     from ..util import canon_function_text
     if isinstance(s, (ast.FunctionDef, ast.AsyncFunctionDef)):
@@ -629,6 +670,7 @@ def run(ctx):
     r8_pure_resolution(ctx)
     r9_kind_conjunct(ctx)
     r10_no_name_reparse(ctx)
+    r11_own_hook_only(ctx)
     ctx.assume("equivalence keys are compared by normalised source text with import aliases expanded; keys that are "
                "equal only at run time (e.g. two spellings of one numpy dtype object) are not detected")
     ctx.assume("generated rows (_build_number_equivalents, _register_numpy_numbers, runtime pyarrow/pyspark objects) "
